@@ -18,6 +18,8 @@ TECH = ("value numbering of the circumcentre formula (exact identity |U-A|=|U-B|
 
 def check(ctx):
     repo = ctx.repo
+    ctx.rule("R07.8", "a mesh restored from a file is the mesh that was saved: every geometric array is read back into the attribute it was written from "
+                      "(shared with C14 R14.1 / R14.12)", 4)
     ctx.rule("R07.7", "every hole of the device is handed to the mesh generator (the hole list is not filtered)", 1)
     ctx.rule("R07.6", "generate_mesh hands the triangulator one coordinate frame: outline, hole outlines, hole markers and boundary points "
                       "are all shifted by the same offset, and the result is shifted back", 1)
@@ -154,6 +156,12 @@ def check(ctx):
     mesher_frames(ctx)
     holes_passed(ctx)
     cell_area_signs(ctx)
+    from ..report import Shared
+    from . import c14
+    sh = Shared(ctx, {"R14.12": "R07.8", "R14.1": "R07.8"}, only=lambda inst: inst.startswith(("EdgeMesh", "Mesh")),
+                consequence="a reloaded mesh reports edge lengths, dual (Voronoi) edge lengths or areas that are not those of its sites and triangles")
+    c14.roundtrips(sh)
+    c14.key_attribute_agreement(sh)
     ctx.decline("tiling of film minus holes, Euler characteristic, positive orientation and non-degeneracy of triangles (Triangle/meshpy), "
                 "clipped Voronoi areas of boundary cells (qhull convex hulls), terminal length 'to within one edge' (matplotlib path "
                 "membership): computed by external native libraries - no static argument in reach")
